@@ -12,8 +12,8 @@
 //  2. chain driver: persist cycles. Each macro event is one small change (view
 //     add/drop = schema chain only, row insert/delete = info chain only,
 //     create/drop table = both) followed by a persist or by a clean
-//     close+reopen; searched to depth 6 / 12 on top of a table that always
-//     exists and to depth 5 / 8 from the empty database, so that the metadata
+//     close+reopen; searched to depth 5 / 12 on top of a table that always
+//     exists and to depth 4 / 8 from the empty database, so that the metadata
 //     chains of schema and info advance their persist clocks independently,
 //     merge chunks (nmerge patterns) and grow to maxChain=7 where they are
 //     flattened; tombstones of dropped tables and views have to survive every
@@ -171,6 +171,11 @@ func chainAlphabet() []drive.Event {
 type absState struct {
 	SClock, SLen, IClock, ILen int
 	SDirty, IDirty             bool
+	// TDirty: tables with committed row changes since the last persist point.
+	// Asym: tables to which an index was added (built from the existing rows)
+	// while they had such pending changes: the new index then holds in its
+	// stored tree what the older indexes still hold in memory layers.
+	TDirty, Asym []string
 }
 
 const maxChain = 7
@@ -197,6 +202,30 @@ func (a *absState) persist() {
 		a.IClock++
 		a.IDirty = false
 	}
+	a.TDirty, a.Asym = nil, nil
+}
+
+func addTo(set []string, x string) []string {
+	for _, y := range set {
+		if y == x {
+			return set
+		}
+	}
+	set = append(append([]string(nil), set...), x)
+	sort.Strings(set)
+	return set
+}
+
+func rename(set []string, from, to string) []string {
+	var out []string
+	for _, y := range set {
+		if y == from {
+			y = to
+		}
+		out = append(out, y)
+	}
+	sort.Strings(out)
+	return out
 }
 
 // absStep predicts how an event moves the persistence shape: a successful
@@ -204,22 +233,47 @@ func (a *absState) persist() {
 // view), a committed data change dirties the info chain, persist writes the
 // dirty chains (advancing their clocks and merging chunks per nmerge),
 // close+reopen persists and resets the clocks.
-func absStep(abs string, ev drive.Event, changed bool) string {
+func absStep(abs string, ev drive.Event, before, after *dbmodel.DB) string {
 	var a absState
 	if abs != "" {
 		json.Unmarshal([]byte(abs), &a)
 	}
+	changed := before != after
 	switch ev.Kind {
 	case "admin":
+		r := ev.Req
 		if changed {
 			a.SDirty = true
-			if ev.Req.Kind != "view" && !(ev.Req.Kind == "drop" && strings.HasPrefix(ev.Req.Table, "v")) {
+			_, wasView := before.Views[r.Table]
+			if r.Kind != "view" && !(r.Kind == "drop" && wasView) {
 				a.IDirty = true
+			}
+			switch r.Kind {
+			case "alter_create", "ensure":
+				bt, at := before.Tables[r.Table], after.Tables[r.Table]
+				if bt != nil && len(bt.Rows) > 0 && len(at.Idx) > len(bt.Idx) {
+					for _, t := range a.TDirty {
+						if t == r.Table {
+							a.Asym = addTo(a.Asym, r.Table)
+						}
+					}
+				}
+			case "rename":
+				a.TDirty = rename(a.TDirty, r.From[0], r.To[0])
+				a.Asym = rename(a.Asym, r.From[0], r.To[0])
+			case "drop":
+				if !wasView {
+					a.TDirty = minus(a.TDirty, []string{r.Table})
+					a.Asym = minus(a.Asym, []string{r.Table})
+				}
 			}
 		}
 	case "tx":
 		if changed {
 			a.IDirty = true
+			for _, op := range ev.Ops {
+				a.TDirty = addTo(a.TDirty, op.Table)
+			}
 		}
 	case "persist":
 		a.persist()
@@ -523,11 +577,11 @@ func run(c *lib.Ctx) {
 	// (so that the chains are never empty) and from the empty database
 	cevs := chainAlphabet()
 	keep := []drive.Event{req("create", "keep", "k", ix('k', "k")), ins("keep", M{"k": "1"})}
-	d3 := lib.Pick(c, 6, 12)
+	d3 := lib.Pick(c, 5, 12)
 	x3 := &drive.Explorer{C: c, Events: cevs, MaxDepth: d3, New: newSys, Abs: absStep, Judge: judge(c), Fail: fail,
 		MaxTransitions: lib.Pick(c, 40000, 300000)}
 	x3.Run(keep)
-	d4 := lib.Pick(c, 5, 8)
+	d4 := lib.Pick(c, 4, 8)
 	x4 := &drive.Explorer{C: c, Events: cevs, MaxDepth: d4, New: newSys, Abs: absStep, Judge: judge(c), Fail: fail,
 		MaxTransitions: lib.Pick(c, 20000, 100000)}
 	x4.Run(nil)
